@@ -219,6 +219,10 @@ def replay_mutator(viol, profile):
         out['post'] = parse_dump(pd[1]) if pd and pd[0] == 'OK' else None
     except ValueError:
         out['post'] = None
+    if pre.get('at'):
+        # embedded pre-state: report the modelled slots only, in slot numbers
+        if out['post'] is not None: out['post'] = project(out['post'], pre['at'])
+        if got is not None: out['pre_observed'] = project(got, pre['at'])
     dr = res.get(n0 + 2)
     out['drops'] = json.loads(dr[1]) if dr and dr[0] == 'OK' else None
     return out
